@@ -235,6 +235,13 @@ OnRet(m, e) ==
                                           \/ errs[1][1] = "CTX" /\ m.ctxMay) THEN {}
                      ELSE {V(m, e, "C07", "returned error is not the error of a task that failed, nor the context's")}))
                  \cup (IF sentinel THEN {} ELSE {V(m, e, "C07", "Results targets modified although an error is returned")}))
+     \* C11: a failure FallbackWith absorbs is not reported
+     \cup (IF \E k \in DOMAIN errs : \E i \in Insts(m.prog) :
+               LET u == UnitOf(m.prog, i[1]) IN
+               /\ \/ u.kind = "task" /\ u.fb /\ m.st[i] \in {"err", "panic"}
+                  \/ u.kind = "pred" /\ m.st[i] = "panic" /\ UnitOf(m.prog, u.task).fb
+               /\ errs[k] = FailTok(m, i)
+           THEN {V(m, e, "C11", "the directive returns a failure that FallbackWith on that task should have absorbed")} ELSE {})
      \cup (IF panicLost THEN {V(m, e, "C04", "a panic is not reported as a PanicError carrying the panic value")} ELSE {})
      \cup (IF \E k \in DOMAIN errs : errs[k][1] = "P" /\ errs[k][2] = 0
            THEN {V(m, e, "C04", "PanicError carries a value that no user function panicked with")} ELSE {})
@@ -314,6 +321,7 @@ MonStep(m, e) ==
                                     "scheduler goroutines survive the directive: " \o e.note)})
     [] e.ev = "capacity" -> Add(m, IF e.k >= e.idx THEN {}
                                    ELSE {V(m, e, "C03", "independent user functions did not run concurrently up to the limit although nothing else was running")})
+    [] e.ev = "capture" -> Add(m, {V(m, e, "C15", "an identifier introduced by generated code captured a name used in an argument expression")})
     [] e.ev = "notprompt" -> Add(m, {V(m, e, "C09", "the directive did not return after its context was done while a user function was still running")})
     [] e.ev = "slow" -> Add(m, {V(m, e, "INCONCLUSIVE", e.note)})
     [] OTHER -> m
